@@ -399,6 +399,15 @@ def gen_real(ctx, n, nmax):
         if not at.get_pbc().any() and abs(np.linalg.det(cell)) < 1e-6 and np.abs(cell).max() > 0:
             at.set_cell([0, 0, 0])
         at, tags = transform(rng, at)
+        if len(cases) % 6 == 4 and at.get_pbc().any() and np.linalg.det(np.array(at.get_cell())) > 1e-6:
+            # the same structure described by a LEFT-handed basis: first two cell vectors (and their pbc flags) exchanged,
+            # Cartesian positions untouched (no PRNG draw: the stream of the other cases is unchanged)
+            cell2 = np.array(at.get_cell())[[1, 0, 2]]
+            pbc2 = np.array(at.get_pbc())[[1, 0, 2]]
+            at = at.copy()
+            at.set_cell(cell2, scale_atoms=False)
+            at.set_pbc(pbc2)
+            tags = list(tags) + ["left-handed"]
         cases.append(as_case(at, family=fam, tags=tags, cfg=random_cfg(rng), script=None,
                              extra_arrays=rng.random() < 0.3))
     return cases
@@ -619,6 +628,11 @@ def predicate(case, row):
         bad.append("independent get_dimensionality failed: " + dim)
     elif not class_ok(dim, n, o1["cls"]):
         bad.append("class %s does not match dimensionality %r of the wrapped structure (n=%d)" % (o1["cls"], dim, n))
+    orc = row.get("dim_oracle") or {}
+    if orc.get("decided") and not class_ok(orc.get("dim"), n, o1["cls"]):
+        bad.append("class %s does not match the dimensionality %r of the wrapped structure computed from first principles "
+                   "(brute-force periodic image sums, rank of the cycle-voltage lattice; matid.geometry.get_dimensionality says %r)"
+                   % (o1["cls"], orc.get("dim"), dim))
     if not o1.get("atoms_is_input", True):
         bad.append("classification.atoms is not the caller's object")
     if o1["cls"] in ("Surface", "Material2D"):
@@ -785,6 +799,10 @@ def evaluate(ctx, name, cases, dist):
         dist["class"][cls] = dist["class"].get(cls, 0) + 1
         d = row.get("dim")
         dist["dimensionality"][str(d)] = dist["dimensionality"].get(str(d), 0) + 1
+        ok_ = (row.get("dim_oracle") or {})
+        okk = "decided" if ok_.get("decided") else "undecided: " + str(ok_.get("why"))[:40]
+        dist.setdefault("first_principles_oracle", {})
+        dist["first_principles_oracle"][okk] = dist["first_principles_oracle"].get(okk, 0) + 1
         pk = "".join("T" if b else "F" for b in c["pbc"])
         dist["pbc"][pk] = dist["pbc"].get(pk, 0) + 1
         fam = c.get("family", "?").split(":")[0] if c.get("script") is None else "scripted"
@@ -938,7 +956,7 @@ def report(ctx, failures, broken):
         ctx.violation({"kind": "correspondence-broken", "broken": what, "case": slim(f["case"]),
                        "implementation": {"kind": o1.get("kind"), "cls": o1.get("cls"), "exc": o1.get("exc"), "basis": o1.get("basis"),
                                           "outliers": o1.get("outliers"), "n_calls": len(o1.get("calls", []))},
-                       "independent": {k: f["row"].get(k) for k in ("dim", "order", "scaled", "order_error")},
+                       "independent": {k: f["row"].get(k) for k in ("dim", "dim_oracle", "order", "scaled", "order_error")},
                        "searched": "the property's predicate was evaluated on every generated input of this run: no failing input",
                        "broken_obligation": broken, "others": len(rest) - 1}, found_input=False)
         return
@@ -968,7 +986,8 @@ def run(ctx):
     ctx.add_trusted("hand-written model coq/Classify/Dispatch.v of classifier.py:156-348, linkedunits.py:78-124, classifications.py:39-59 "
                     "(tied to the code by the correspondence below, not by a translator)",
                     "harness/impl/c17_impl.py: scripted stub / logging wrapper installed over matid.classification.classifier.PeriodicFinder; "
-                    "independent dimensionality = matid.geometry.get_dimensionality on a wrapped copy (itself the subject of C09)",
+                    "independent dimensionality = matid.geometry.get_dimensionality on a wrapped copy (itself the subject of C09) AND a first-principles "
+                    "oracle without matid (harness/lib/dim_oracle.py: brute-force image sums, integer rank of the cycle voltages; undecided near ties)",
                     "coverage test: the model compares exactly (Q); binary64 `nb/n >= min_coverage` differs only within half an ulp below "
                     "min_coverage; such cases are detected exactly and counted as coverage_boundary")
     ctx.assumptions += [
